@@ -31,12 +31,15 @@ class Scope(list[Any]):
     """List-like scope bindings with dict-style access by name."""
 
     owner: "NixExpression | None"
+    weak: bool
 
     def __init__(
         self, items: Iterable[Any] = (), *, owner: "NixExpression | None" = None
     ) -> None:
         super().__init__(items)
         self.owner: "NixExpression | None" = owner
+        # `with` environments are weak: any enclosing let/rec/argument binding wins.
+        self.weak = False
 
     def _find_binding_index(self, key: str) -> int | None:
         from nix_manipulator.expressions.binding import Binding
